@@ -303,6 +303,12 @@ func Run(b *Behaviour) (events []sim.Ev) {
 		x.emit(e)
 	}
 	x.W.S.OnExit = func(name string) { x.emit(sim.Ev{"e": "exit", "p": name}) }
+	x.W.S.OnPass = func(g *sched.Gate) {
+		// in free mode only the hook sites the monitor reads as observation points are recorded
+		if g.Site == "lw.got" || g.Site == "lw.wait" {
+			x.emit(sim.Ev{"e": "gate", "p": g.Proc, "k": g.Kind, "site": g.Site})
+		}
+	}
 	x.Store.Hook = func(op string, key uint) error {
 		o := x.W.S.Arrive("store", "store."+op, map[string]any{"key": key})
 		if o.Kind == "err" {
